@@ -1,14 +1,392 @@
 import Girc.Proofs.InvBase
+/-
+  `deleteUser` / `deleteChannel` never fault on a consistent state and keep it consistent.
+  The reusable parts are the three abstract preservation lemmas in lookup form
+  (`InvL.eraseUser`, `InvL.removeEdge`, `InvL.eraseChannel`) and the two loop specifications
+  (`deleteUserLoop_spec`, `deleteChannelLoop_spec`).
+-/
 namespace Girc.Proofs.InvDelete
-open Girc Girc.Model Girc.Spec
+open Girc Girc.Model Girc.Spec Girc.Proofs.InvBase
+
+/-! ### Abstract preservation lemmas (lookup form) -/
+
+/-- Removing nick `N` from every channel's user list and from the user map. -/
+theorem _root_.Girc.Proofs.InvBase.InvL.eraseUser {cs cs' : AMap Channel} {us : AMap User} (h : InvL cs us) (N : Bytes)
+    (hnd : (AMap.keys cs').Nodup)
+    (hget : ∀ k, AMap.get? cs' k = (AMap.get? cs k).map (fun ch => { ch with users := ch.users.erase N })) :
+    InvL cs' (AMap.erase us N) := by
+  have hc : ∀ k ch', AMap.get? cs' k = some ch' →
+      ∃ ch, AMap.get? cs k = some ch ∧ ch'.name = ch.name ∧ ch'.users = ch.users.erase N := by
+    intro k ch' hk
+    rw [hget] at hk
+    cases hck : AMap.get? cs k with
+    | none => rw [hck] at hk; cases hk
+    | some ch => rw [hck] at hk; cases hk; exact ⟨ch, rfl, rfl, rfl⟩
+  have hu : ∀ n u, AMap.get? (AMap.erase us N) n = some u → n ≠ N ∧ AMap.get? us n = some u := by
+    intro n u hn
+    rw [get?_erase] at hn
+    by_cases e : n = N
+    · rw [if_pos e] at hn; cases hn
+    · rw [if_neg e] at hn; exact ⟨e, hn⟩
+  exact {
+    chanKeys := hnd
+    userKeys := keys_erase_nodup h.userKeys N
+    chanKey := fun k ch' hk => by
+      obtain ⟨ch, hch, e1, _⟩ := hc k ch' hk
+      rw [e1]; exact h.chanKey k ch hch
+    userKey := fun n u hn => h.userKey n u (hu n u hn).2
+    chanToUser := fun k ch' hk n hn => by
+      obtain ⟨ch, hch, _, e2⟩ := hc k ch' hk
+      rw [e2, mem_erase_of_nodup (h.users_nodup hch)] at hn
+      obtain ⟨u, hu', hku⟩ := h.chanToUser k ch hch n hn.2
+      exact ⟨u, by rw [get?_erase_ne _ hn.1]; exact hu', hku⟩
+    userToChan := fun n u hn k hk => by
+      obtain ⟨hne, hn'⟩ := hu n u hn
+      obtain ⟨ch, hch, hnc⟩ := h.userToChan n u hn' k hk
+      refine ⟨{ ch with users := ch.users.erase N }, by rw [hget, hch]; rfl, ?_⟩
+      exact (mem_erase_of_nodup (h.users_nodup hch) N n).mpr ⟨hne, hnc⟩
+    chanSorted := fun k ch' hk => by
+      obtain ⟨ch, hch, _, e2⟩ := hc k ch' hk
+      obtain ⟨hs, hf⟩ := h.chanSorted k ch hch
+      rw [e2]; exact ⟨sortedStrict_erase N hs, folded_erase N hf⟩
+    userSorted := fun n u hn => h.userSorted n u (hu n u hn).2
+    userHasChan := fun n u hn => h.userHasChan n u (hu n u hn).2 }
+
+/-- Removing the single membership edge between user `N` and channel `K` (both exist; the edge need
+    not), dropping the user when its channel list becomes empty. -/
+theorem _root_.Girc.Proofs.InvBase.InvL.removeEdge {cs : AMap Channel} {us : AMap User} (h : InvL cs us) {N K : Bytes}
+    {user user' : User} {channel channel' : Channel}
+    (hu : AMap.get? us N = some user) (hc : AMap.get? cs K = some channel)
+    (hnick : user'.nick = user.nick) (hchans : user'.chans = user.chans.erase K)
+    (hname : channel'.name = channel.name) (husers : channel'.users = channel.users.erase N) :
+    InvL (AMap.set cs K channel')
+      (if user'.chans.length = 0 then AMap.erase (AMap.set us N user') N else AMap.set us N user') := by
+  have hund := h.chans_nodup hu
+  have hcnd := h.users_nodup hc
+  have getU : ∀ n, AMap.get?
+      (if user'.chans.length = 0 then AMap.erase (AMap.set us N user') N else AMap.set us N user') n =
+      if n = N then (if user'.chans = [] then none else some user') else AMap.get? us n := by
+    intro n
+    by_cases hl : user'.chans.length = 0
+    · rw [if_pos hl, get?_erase, get?_set]
+      by_cases e : n = N
+      · rw [if_pos e, if_pos e, if_pos (List.length_eq_zero_iff.mp hl)]
+      · rw [if_neg e, if_neg e, if_neg e]
+    · rw [if_neg hl, get?_set]
+      by_cases e : n = N
+      · rw [if_pos e, if_pos e, if_neg (fun e' => hl (List.length_eq_zero_iff.mpr e'))]
+      · rw [if_neg e, if_neg e]
+  have getC : ∀ k, AMap.get? (AMap.set cs K channel') k = if k = K then some channel' else AMap.get? cs k :=
+    fun k => get?_set cs K k channel'
+  -- what a surviving user entry looks like
+  have hU : ∀ n u, AMap.get?
+      (if user'.chans.length = 0 then AMap.erase (AMap.set us N user') N else AMap.set us N user') n = some u →
+      (n = N ∧ u = user' ∧ user'.chans ≠ []) ∨ (n ≠ N ∧ AMap.get? us n = some u) := by
+    intro n u hn
+    rw [getU] at hn
+    by_cases e : n = N
+    · rw [if_pos e] at hn
+      by_cases e' : user'.chans = []
+      · rw [if_pos e'] at hn; cases hn
+      · rw [if_neg e'] at hn; cases hn; exact Or.inl ⟨e, rfl, e'⟩
+    · rw [if_neg e] at hn; exact Or.inr ⟨e, hn⟩
+  have hC : ∀ k c, AMap.get? (AMap.set cs K channel') k = some c →
+      (k = K ∧ c = channel') ∨ (k ≠ K ∧ AMap.get? cs k = some c) := by
+    intro k c hk
+    rw [getC] at hk
+    by_cases e : k = K
+    · rw [if_pos e] at hk; cases hk; exact Or.inl ⟨e, rfl⟩
+    · rw [if_neg e] at hk; exact Or.inr ⟨e, hk⟩
+  refine {
+    chanKeys := keys_set_nodup h.chanKeys K channel'
+    userKeys := ?_
+    chanKey := ?_
+    userKey := ?_
+    chanToUser := ?_
+    userToChan := ?_
+    chanSorted := ?_
+    userSorted := ?_
+    userHasChan := ?_ }
+  · split
+    · exact keys_erase_nodup (keys_set_nodup h.userKeys N user') N
+    · exact keys_set_nodup h.userKeys N user'
+  · intro k c hk
+    rcases hC k c hk with ⟨rfl, rfl⟩ | ⟨_, hk'⟩
+    · rw [hname]; exact h.chanKey _ _ hc
+    · exact h.chanKey k c hk'
+  · intro n u hn
+    rcases hU n u hn with ⟨rfl, rfl, _⟩ | ⟨_, hn'⟩
+    · rw [hnick]; exact h.userKey _ _ hu
+    · exact h.userKey n u hn'
+  · intro k c hk n hn
+    rw [getU]
+    rcases hC k c hk with ⟨rfl, rfl⟩ | ⟨hkK, hk'⟩
+    · rw [husers, mem_erase_of_nodup hcnd] at hn
+      obtain ⟨u, hu', hku⟩ := h.chanToUser _ _ hc n hn.2
+      exact ⟨u, by rw [if_neg hn.1]; exact hu', hku⟩
+    · obtain ⟨u, hu', hku⟩ := h.chanToUser k c hk' n hn
+      by_cases e : n = N
+      · subst e
+        rw [hu] at hu'; cases hu'
+        have hmem : k ∈ user'.chans := by
+          rw [hchans]; exact (mem_erase_of_nodup hund K k).mpr ⟨hkK, hku⟩
+        have hne : user'.chans ≠ [] := List.ne_nil_of_mem hmem
+        exact ⟨user', by rw [if_pos rfl, if_neg hne], hmem⟩
+      · exact ⟨u, by rw [if_neg e]; exact hu', hku⟩
+  · intro n u hn k hk
+    rw [getC]
+    rcases hU n u hn with ⟨rfl, rfl, _⟩ | ⟨hnN, hn'⟩
+    · rw [hchans, mem_erase_of_nodup hund] at hk
+      obtain ⟨c, hc', hnc⟩ := h.userToChan _ _ hu k hk.2
+      exact ⟨c, by rw [if_neg hk.1]; exact hc', hnc⟩
+    · obtain ⟨c, hc', hnc⟩ := h.userToChan n u hn' k hk
+      by_cases e : k = K
+      · subst e
+        rw [hc] at hc'; cases hc'
+        refine ⟨channel', by rw [if_pos rfl], ?_⟩
+        rw [husers]; exact (mem_erase_of_nodup hcnd N n).mpr ⟨hnN, hnc⟩
+      · exact ⟨c, by rw [if_neg e]; exact hc', hnc⟩
+  · intro k c hk
+    rcases hC k c hk with ⟨rfl, rfl⟩ | ⟨_, hk'⟩
+    · obtain ⟨hs, hf⟩ := h.chanSorted _ _ hc
+      rw [husers]; exact ⟨sortedStrict_erase N hs, folded_erase N hf⟩
+    · exact h.chanSorted k c hk'
+  · intro n u hn
+    rcases hU n u hn with ⟨rfl, rfl, _⟩ | ⟨_, hn'⟩
+    · obtain ⟨hs, hf⟩ := h.userSorted _ _ hu
+      rw [hchans]; exact ⟨sortedStrict_erase K hs, folded_erase K hf⟩
+    · exact h.userSorted n u hn'
+  · intro n u hn
+    rcases hU n u hn with ⟨rfl, rfl, hne⟩ | ⟨_, hn'⟩
+    · exact hne
+    · exact h.userHasChan n u hn'
+
+/-- Removing channel `K` from the channel map and from every user's channel list, dropping the users
+    whose list becomes empty. The new user map is described relationally (other user attributes are
+    free to change). -/
+theorem _root_.Girc.Proofs.InvBase.InvL.eraseChannel {cs : AMap Channel} {us us' : AMap User} (h : InvL cs us) (K : Bytes)
+    (hnd : (AMap.keys us').Nodup)
+    (hold : ∀ n u', AMap.get? us' n = some u' →
+      ∃ u, AMap.get? us n = some u ∧ u'.nick = u.nick ∧ u'.chans = u.chans.erase K ∧ u'.chans ≠ [])
+    (hnew : ∀ n u, AMap.get? us n = some u → u.chans.erase K ≠ [] →
+      ∃ u', AMap.get? us' n = some u' ∧ u'.chans = u.chans.erase K) :
+    InvL (AMap.erase cs K) us' := by
+  have hC : ∀ k c, AMap.get? (AMap.erase cs K) k = some c → k ≠ K ∧ AMap.get? cs k = some c := by
+    intro k c hk
+    rw [get?_erase] at hk
+    by_cases e : k = K
+    · rw [if_pos e] at hk; cases hk
+    · rw [if_neg e] at hk; exact ⟨e, hk⟩
+  exact {
+    chanKeys := keys_erase_nodup h.chanKeys K
+    userKeys := hnd
+    chanKey := fun k c hk => h.chanKey k c (hC k c hk).2
+    userKey := fun n u' hn => by
+      obtain ⟨u, hu, e1, _, _⟩ := hold n u' hn
+      rw [e1]; exact h.userKey n u hu
+    chanToUser := fun k c hk n hn => by
+      obtain ⟨hkK, hk'⟩ := hC k c hk
+      obtain ⟨u, hu, hku⟩ := h.chanToUser k c hk' n hn
+      have hmem : k ∈ u.chans.erase K := (mem_erase_of_nodup (h.chans_nodup hu) K k).mpr ⟨hkK, hku⟩
+      obtain ⟨u', hu', e2⟩ := hnew n u hu (List.ne_nil_of_mem hmem)
+      exact ⟨u', hu', e2 ▸ hmem⟩
+    userToChan := fun n u' hn k hk => by
+      obtain ⟨u, hu, _, e2, _⟩ := hold n u' hn
+      rw [e2, mem_erase_of_nodup (h.chans_nodup hu)] at hk
+      obtain ⟨c, hc, hnc⟩ := h.userToChan n u hu k hk.2
+      exact ⟨c, by rw [get?_erase_ne _ hk.1]; exact hc, hnc⟩
+    chanSorted := fun k c hk => h.chanSorted k c (hC k c hk).2
+    userSorted := fun n u' hn => by
+      obtain ⟨u, hu, _, e2, _⟩ := hold n u' hn
+      obtain ⟨hs, hf⟩ := h.userSorted n u hu
+      rw [e2]; exact ⟨sortedStrict_erase K hs, folded_erase K hf⟩
+    userHasChan := fun n u' hn => by
+      obtain ⟨u, _, _, _, hne⟩ := hold n u' hn
+      exact hne }
+
+/-! ### The two loops -/
+
+theorem deleteUserLoop_nil (nick : Bytes) (cs : AMap Channel) : deleteUserLoop nick [] cs = .ok cs := rfl
+
+theorem deleteUserLoop_cons (nick c : Bytes) (rest : List Bytes) (cs : AMap Channel) (ch : Channel)
+    (h : AMap.get? cs c = some ch) :
+    deleteUserLoop nick (c :: rest) cs = deleteUserLoop nick rest (AMap.set cs c (ch.deleteUser nick)) := by
+  rw [deleteUserLoop, h]; rfl
+
+/-- `deleteUserLoop` over a duplicate-free list of existing channels succeeds and applies
+    `Channel.deleteUser nick` to exactly the listed channels. -/
+theorem deleteUserLoop_spec (nick : Bytes) (l : List Bytes) (cs : AMap Channel)
+    (hnd : (AMap.keys cs).Nodup) (hl : l.Nodup) (hex : ∀ c ∈ l, ∃ ch, AMap.get? cs c = some ch) :
+    ∃ cs', deleteUserLoop nick l cs = .ok cs' ∧ (AMap.keys cs').Nodup ∧
+      ∀ k, AMap.get? cs' k = (AMap.get? cs k).map (fun ch => if k ∈ l then ch.deleteUser nick else ch) := by
+  induction l generalizing cs with
+  | nil => exact ⟨cs, rfl, hnd, fun k => by simp⟩
+  | cons c rest ih =>
+    obtain ⟨ch, hch⟩ := hex c List.mem_cons_self
+    obtain ⟨hc, hrest⟩ := List.nodup_cons.mp hl
+    have hex' : ∀ c' ∈ rest, ∃ ch', AMap.get? (AMap.set cs c (ch.deleteUser nick)) c' = some ch' := by
+      intro c' hc'
+      have hne : c' ≠ c := fun e => hc (e ▸ hc')
+      rw [get?_set_ne _ _ hne]
+      exact hex c' (List.mem_cons_of_mem _ hc')
+    obtain ⟨cs', hrun, hnd', hget⟩ := ih _ (keys_set_nodup hnd c _) hrest hex'
+    refine ⟨cs', by rw [deleteUserLoop_cons _ _ _ _ _ hch]; exact hrun, hnd', ?_⟩
+    intro k
+    rw [hget, get?_set]
+    by_cases e : k = c
+    · subst e
+      rw [if_pos rfl, hch]
+      simp [hc]
+    · rw [if_neg e]
+      simp [e]
+
+theorem deleteChannelLoop_nil (name : Bytes) (us : AMap User) : deleteChannelLoop name [] us = .ok us := rfl
+
+theorem deleteChannelLoop_cons (name n : Bytes) (rest : List Bytes) (us : AMap User) (u : User)
+    (h : AMap.get? us n = some u) :
+    deleteChannelLoop name (n :: rest) us =
+      deleteChannelLoop name rest
+        (if (u.deleteChannel name).chans.length = 0 then AMap.erase (AMap.set us n (u.deleteChannel name)) n
+         else AMap.set us n (u.deleteChannel name)) := by
+  rw [deleteChannelLoop, h]; rfl
+
+/-- One step of `deleteChannelLoop` on the user map, as a lookup. -/
+theorem get?_deleteChannel_step (us : AMap User) (n x : Bytes) (u' : User) :
+    AMap.get? (if u'.chans.length = 0 then AMap.erase (AMap.set us n u') n else AMap.set us n u') x =
+      if x = n then (if u'.chans = [] then none else some u') else AMap.get? us x := by
+  by_cases hl : u'.chans.length = 0
+  · rw [if_pos hl, get?_erase, get?_set]
+    by_cases e : x = n
+    · rw [if_pos e, if_pos e, if_pos (List.length_eq_zero_iff.mp hl)]
+    · rw [if_neg e, if_neg e, if_neg e]
+  · rw [if_neg hl, get?_set]
+    by_cases e : x = n
+    · rw [if_pos e, if_pos e, if_neg (fun e' => hl (List.length_eq_zero_iff.mpr e'))]
+    · rw [if_neg e, if_neg e]
+
+theorem keys_deleteChannel_step_nodup {us : AMap User} (hnd : (AMap.keys us).Nodup) (n : Bytes) (u' : User) :
+    (AMap.keys (if u'.chans.length = 0 then AMap.erase (AMap.set us n u') n else AMap.set us n u')).Nodup := by
+  split
+  · exact keys_erase_nodup (keys_set_nodup hnd n u') n
+  · exact keys_set_nodup hnd n u'
+
+/-- `deleteChannelLoop` over a duplicate-free list of existing users succeeds; exactly the listed users
+    get `User.deleteChannel name` applied and are dropped when their channel list becomes empty. -/
+theorem deleteChannelLoop_spec (name : Bytes) (l : List Bytes) (us : AMap User)
+    (hnd : (AMap.keys us).Nodup) (hl : l.Nodup) (hex : ∀ n ∈ l, ∃ u, AMap.get? us n = some u) :
+    ∃ us', deleteChannelLoop name l us = .ok us' ∧ (AMap.keys us').Nodup ∧
+      ∀ x, AMap.get? us' x =
+        if x ∈ l then
+          (AMap.get? us x).bind (fun u =>
+            if (u.deleteChannel name).chans = [] then none else some (u.deleteChannel name))
+        else AMap.get? us x := by
+  induction l generalizing us with
+  | nil => exact ⟨us, rfl, hnd, fun x => by simp⟩
+  | cons n rest ih =>
+    obtain ⟨u, hu⟩ := hex n List.mem_cons_self
+    obtain ⟨hn, hrest⟩ := List.nodup_cons.mp hl
+    have hex' : ∀ n' ∈ rest, ∃ u', AMap.get?
+        (if (u.deleteChannel name).chans.length = 0 then AMap.erase (AMap.set us n (u.deleteChannel name)) n
+         else AMap.set us n (u.deleteChannel name)) n' = some u' := by
+      intro n' hn'
+      have hne : n' ≠ n := fun e => hn (e ▸ hn')
+      rw [get?_deleteChannel_step, if_neg hne]
+      exact hex n' (List.mem_cons_of_mem _ hn')
+    obtain ⟨us', hrun, hnd', hget⟩ := ih _ (keys_deleteChannel_step_nodup hnd n _) hrest hex'
+    refine ⟨us', by rw [deleteChannelLoop_cons _ _ _ _ _ hu]; exact hrun, hnd', ?_⟩
+    intro x
+    rw [hget, get?_deleteChannel_step]
+    by_cases e : x = n
+    · subst e
+      rw [if_neg hn, if_pos rfl, if_pos List.mem_cons_self, hu]
+      rfl
+    · rw [if_neg e]
+      simp [e]
+
+/-! ### The two theorems -/
 
 /-- `deleteUser` never dereferences nil on a consistent state and keeps it consistent. -/
 theorem deleteUser_inv (st : St) (chan nick : Bytes) (h : Inv st) :
     ∃ st', st.deleteUser chan nick = .ok st' ∧ Inv st' := by
-  sorry
+  have hL := h.toInvL
+  unfold St.deleteUser
+  cases hu : st.lookupUser nick with
+  | none => exact ⟨st, rfl, h⟩
+  | some user =>
+    have hu' : AMap.get? st.users (fold nick) = some user := hu
+    by_cases hchan : chan = []
+    · simp only [if_pos hchan]
+      obtain ⟨cs', hrun, hnd', hget⟩ := deleteUserLoop_spec nick user.chans st.channels hL.chanKeys
+        (hL.chans_nodup hu') (fun c hc => by
+          obtain ⟨ch, hch, _⟩ := hL.userToChan _ _ hu' c hc
+          exact ⟨ch, hch⟩)
+      refine ⟨{ st with channels := cs', users := AMap.erase st.users (fold nick) }, ?_, ?_⟩
+      · rw [hrun]; rfl
+      · apply inv_with_maps
+        apply hL.eraseUser (fold nick) hnd'
+        intro k
+        rw [hget]
+        cases hk : AMap.get? st.channels k with
+        | none => rfl
+        | some ch =>
+          simp only [Option.map_some]
+          congr 1
+          by_cases hm : k ∈ user.chans
+          · rw [if_pos hm]; rfl
+          · rw [if_neg hm]
+            have hnot : fold nick ∉ ch.users := fun hin => hm ((hL.mem_users_iff_mem_chans hk hu').mp hin)
+            rw [List.erase_of_not_mem hnot]
+    · simp only [if_neg hchan]
+      cases hc : st.lookupChannel chan with
+      | none => exact ⟨st, rfl, h⟩
+      | some channel =>
+        have hc' : AMap.get? st.channels (fold chan) = some channel := hc
+        exact ⟨_, rfl, inv_with_maps st (hL.removeEdge hu' hc' rfl rfl rfl rfl)⟩
 
 theorem deleteChannel_inv (st : St) (chan : Bytes) (h : Inv st) :
     ∃ st', st.deleteChannel chan = .ok st' ∧ Inv st' := by
-  sorry
+  have hL := h.toInvL
+  unfold St.deleteChannel
+  simp only []
+  cases hc : AMap.get? st.channels (fold chan) with
+  | none => exact ⟨st, rfl, h⟩
+  | some ch =>
+    obtain ⟨us', hrun, hnd', hget⟩ := deleteChannelLoop_spec (fold chan) ch.users st.users hL.userKeys
+      (hL.users_nodup hc) (fun n hn => by
+        obtain ⟨u, hu, _⟩ := hL.chanToUser _ _ hc n hn
+        exact ⟨u, hu⟩)
+    have hdc : ∀ u : User, (u.deleteChannel (fold chan)).chans = u.chans.erase (fold chan) := by
+      intro u; show u.chans.erase (fold (fold chan)) = _; rw [fold_idem]
+    refine ⟨{ st with users := us', channels := AMap.erase st.channels (fold chan) }, ?_, ?_⟩
+    · simp only [hrun]; rfl
+    · apply inv_of_invL (st := { st with users := us', channels := AMap.erase st.channels (fold chan) })
+      apply hL.eraseChannel (fold chan) hnd'
+      · intro n u' hn
+        rw [hget] at hn
+        by_cases hm : n ∈ ch.users
+        · rw [if_pos hm] at hn
+          cases hu : AMap.get? st.users n with
+          | none => rw [hu] at hn; cases hn
+          | some u =>
+            rw [hu] at hn
+            simp only [Option.bind_some] at hn
+            by_cases he : (u.deleteChannel (fold chan)).chans = []
+            · rw [if_pos he] at hn; cases hn
+            · rw [if_neg he] at hn; cases hn
+              exact ⟨u, rfl, rfl, hdc u, he⟩
+        · rw [if_neg hm] at hn
+          have hnot : fold chan ∉ u'.chans := fun hin => hm ((hL.mem_users_iff_mem_chans hc hn).mpr hin)
+          refine ⟨u', hn, rfl, ?_, hL.userHasChan n u' hn⟩
+          rw [List.erase_of_not_mem hnot]
+      · intro n u hu hne
+        rw [hget]
+        by_cases hm : n ∈ ch.users
+        · rw [if_pos hm, hu]
+          simp only [Option.bind_some]
+          rw [if_neg (by rw [hdc]; exact hne)]
+          exact ⟨_, rfl, hdc u⟩
+        · rw [if_neg hm]
+          have hnot : fold chan ∉ u.chans := fun hin => hm ((hL.mem_users_iff_mem_chans hc hu).mpr hin)
+          exact ⟨u, hu, (List.erase_of_not_mem hnot).symm⟩
 
 end Girc.Proofs.InvDelete
